@@ -172,6 +172,8 @@ class C11(PropBase):
             base = gen.root_types(view, rng, cfg, 1)[0]
             if rng.random() < 0.25:
                 base = {"k": "ref", "m": mods[0], "n": "VwLoc"}
+            elif rng.random() < 0.08:
+                base = {"k": "bytes"}  # carried verbatim by codecs - through every wrapper, too
             if base["k"] == "none":
                 base = {"k": "int"}
             home = rng.choice(mods) if not any(n["k"] == "ref" for n in model.twalk(base)) else _home_of(base, mods)
